@@ -115,6 +115,12 @@ static std::vector<Op> ops() {
                  snprintf(b, sizeof b, "%.17g [%.17g,%.17g]-[%.17g,%.17g]", t.Area(), r.min.x, r.min.y, r.max.x, r.max.y);
                  return std::string(b);
                }});
+  // union of bounding-box-disjoint parts: evaluated by Compose, which shifts mesh IDs by a snapshot of the global counter
+  O.push_back({"compose(A+far).GetMeshGL64", [](World&) {
+                 Manifold u = Manifold::Cube() + Manifold::Cube().Translate({5, 0, 0}) + Manifold::Tetrahedron().Translate({0, 7, 0});
+                 MeshGL64 m = u.GetMeshGL64();
+                 return hx(byteHash(m, false)) + "/runs=" + std::to_string(m.runOriginalID.size());
+               }});
   O.push_back({"smooth.Refine(3)", [](World& w) { return hx(byteHash(w.smooth.Refine(3).GetMeshGL64(), false)); }});
   return O;
 }
@@ -157,6 +163,7 @@ int main(int argc, char** argv) {
   struct TP {
     std::vector<std::vector<int>> threads;
     int bound;
+    bool taskPoints = false;
   };
   std::vector<TP> progs;
   for (auto& g : groups) {
@@ -173,6 +180,19 @@ int main(int argc, char** argv) {
       for (size_t b = 0; b < g.size(); ++b)
         for (size_t c2 = 0; c2 < g.size(); ++c2)
           if (thorough || g.size() <= 4) progs.push_back({{{g[a], g[c2]}, {g[b]}}, thorough ? 2 : 1});
+  }
+
+  // the mesh-ID counter: Compose reads it while other clients advance it.  Nothing but TBB task boundaries lies between
+  // Compose's reads, so in these programs task boundaries are scheduling points too (taskPoints), with bound 1.
+  {
+    const int cmp = idx("compose(A+far).GetMeshGL64"), rid = idx("ReserveIDs(2)");
+    for (auto t : std::vector<std::vector<std::vector<int>>>{{{cmp}, {rid}}, {{cmp}, {cmp}}, {{cmp}, {rid, rid}}, {{cmp}, {rid}, {rid}}}) {
+      TP p;
+      p.threads = t;
+      p.bound = thorough ? 2 : 1;
+      p.taskPoints = true;
+      progs.push_back(p);
+    }
   }
 
   R.phase("interleavings", progs.size(), 4, [&](uint64_t idx, Ctx& c) {
@@ -239,6 +259,7 @@ int main(int argc, char** argv) {
     cfg.bound = progs[idx].bound;
     cfg.freeCost = 0;
     cfg.workers = 1;  // the TBB model runs each client's parallel loops on the client's own thread
+    cfg.taskPoints = progs[idx].taskPoints;
     cfg.concurrency = 2;
     cfg.timeout = 60;
     cfg.captureStderr = true;
